@@ -33,4 +33,9 @@ theorem vec_facts : ∀ t ∈ List.range 101, (isF32F64 t || isVec t) = true →
 theorem mask_facts : ∀ t ∈ List.range 101, isMask t = true →
     isInt t = false ∧ isFloat t = false ∧ isVec t = false ∧ isMmx t = false ∧ isF32F64 t = false ∧ t ≠ tFloat80 := by decide +kernel
 
+theorem unpack_x64 (t : Nat) : unpack .x64 t = [t] := by simp [unpack]
+
+theorem packLoop_single (f : St → Nat → St × FuncValue) (s : St) (t : Nat) :
+    packLoop f s [t] = ((f s t).1, [(f s t).2]) := rfl
+
 end AsmjitVerif.C06
